@@ -11,8 +11,8 @@ import cmdcodec
 import common
 from common import hexs, unhex
 
-GEN_DEPS = ("gen_commands", "gen_tmux")
-EXTRA_PROPS = ()
+GEN_DEPS = ("gen_commands", "gen_tmux", "gen_sendtrans")
+EXTRA_PROPS = ("C05tr",)
 ASSUMPTIONS = [
     "a seekable stream payload is its contents and read(n) returns min(n, remaining) bytes (BytesIO, regular files)",
     "coq/Spec/KittyProtoSpec.v and coq/Spec/TmuxSpec.v are the readings of the protocol format and of tmux pass-through",
